@@ -25,12 +25,15 @@ THEOREMS = [
     "reg_from_hex_unfixed_refuted", "decrypt_unfixed_refuted", "port_validate_unfixed_refuted",
     "increment_port_unfixed_refuted", "load_cache_unfixed_refuted",
     "no_panic_expiry_test", "expiry_by_addition_refuted", "str_slice_prefix_refuted",
+    "registry_save_load_roundtrip", "write_without_truncate_refuted",
 ]
 RULE = ("per text parser: non-ASCII inputs whose BYTE length is exactly L for L around every special length (hex "
         "lengths 64/66/96/98/160/162, short port / amount / multiaddress lengths) with a 2-, 3- or 4-byte character "
         "starting at byte offsets 0..4 and ending at the end; 0x/0X prefixes, blanks, quotes, signs around valid values; "
         "cache files with last_seen at 0, 1, 2^31, 2^32, 2^62, i64::MAX-{0,1,59..86401,10^9}, u64 values and nanos "
         "serde rejects, and within 1-3 s of now / the expiry boundary; "
+        "registry files: save -> save -> ... -> load on ONE path over any previous content, serialised sizes growing, equal, "
+        "shrinking by one byte and by a lot; "
         "per parser: empty / one-short / exact / one-long / far-too-long decoded lengths around every fixed "
         "offset (8, 20, 32, 48, 80 bytes; 3 header bytes), odd length, upper/mixed case, one non-hex or "
         "non-ASCII character, valid values from the real formatter; ports: every shape of `a`, `a-b` with "
@@ -364,6 +367,40 @@ REGISTRY_SEEDS = [
 ]
 
 
+def registry_variants(rng):
+    """registry JSON texts (formatter inputs) of many different serialised lengths, incl. neighbours differing by 1 byte"""
+    base0, base1 = json.loads(REGISTRY_SEEDS[0]), json.loads(REGISTRY_SEEDS[1])
+    node = base1["nodes"][0]
+
+    def reg(nodes=0, env=None, nat=None, version="0.1.0"):
+        r = dict(base0)
+        r["environment_variables"] = env
+        r["nat_status"] = nat
+        r["nodes"] = [dict(node, number=i + 1, service_name="antnode%d" % (i + 1), version=version) for i in range(nodes)]
+        return json.dumps(r, separators=(",", ":"))
+    vs = {"empty": reg(), "env1": reg(env=[["A", "b"]]), "env2": reg(env=[["A", "bb"]]), "env1c": reg(env=[["A", "c"]]),
+          "envbig": reg(env=[["ANT_LOG", "all"], ["RUST_BACKTRACE", "full"], ["X", "y" * 300]]),
+          "nat": reg(nat="Private"), "n1": reg(nodes=1), "n1v": reg(nodes=1, version="0.1.01"), "n2": reg(nodes=2),
+          "n3env": reg(nodes=3, env=[["A", "b"]], nat="Public"), "n6": reg(nodes=6)}
+    return vs
+
+
+def registry_sequences(rng, n):
+    vs = registry_variants(rng)
+    fixed = [["env2", "env1"], ["env1", "env2"], ["env1", "env1c"], ["envbig", "empty"], ["empty", "envbig"], ["nat", "empty"],
+             ["n2", "n1", "empty"], ["empty", "n3env"], ["n1v", "n1"], ["n1", "n1v"], ["n6", "n1", "n6", "empty"], ["n1", "n1"],
+             ["n3env", "n2", "n1", "empty", "n1"], ["empty"], ["n1", "empty", "empty"]]
+    out = []
+    for names in fixed:
+        out.append({"op": "registry_seq", "pre": None, "names": names, "steps": [list(vs[x].encode()) for x in names]})
+    keys = sorted(vs)
+    pres = [None, list(b"x" * 6000), list(b"{}"), list(b"\xff\xfe garbage " * 200), list(vs["n6"].encode()), []]
+    while len(out) < n:
+        names = [rng.choice(keys) for _ in range(rng.choice([2, 2, 3, 5]))]
+        out.append({"op": "registry_seq", "pre": rng.choice(pres), "names": names, "steps": [list(vs[x].encode()) for x in names]})
+    return out
+
+
 def gen(ctx, valid_pks):
     rng = ctx.rng
     quick = ctx.tier == "quick"
@@ -464,6 +501,8 @@ def gen(ctx, valid_pks):
             i = rng.randrange(len(b))
             b = b[:i] + bytes([rng.choice([0xff, 0xc0, 0x80])]) + b[i + 1:]
         cases.append({"op": "registry_load", "content": list(b), "fam": "mutated"})
+    # ---- registry files saved repeatedly over one path (growing, equal, shrinking by one byte / by a lot), then loaded
+    cases += registry_sequences(rng, 40 * k)
     # ---- record bytes: all lengths 0..4 around the 3 header bytes, every first byte class of msgpack
     heads = [[], [0x91], [0x91, 1], [0x91, 1, 0], [0x91, 0xcc, 7], [0x91, 0xcc, 8], [0x91, 7, 0xc0], [0x91, 8, 0],
              [0x81, 0xa4, 0x6b], [0x90, 0, 0], [0x92, 1, 1], [0xc0, 0, 0], [0x91, 0xcd, 0], [0x91, 0xce, 0], [0x91, 0xd0, 1],
@@ -651,6 +690,16 @@ def oracle(c, o):
                 bad("registry-default", "missing/empty file did not give the empty registry")
         elif (o["r"] == "ok") != bool(o["parse_ok"]):
             bad("registry-accepts", "load %s but serde_json %s the text" % (o["r"], "accepts" if o["parse_ok"] else "rejects"))
+    elif op == "registry_seq":
+        for i, st in enumerate(o["steps"]):
+            if not st.get("parsed"):
+                continue            # the seed no longer matches the registry schema: nothing to say about save/load
+            if not st["saved"]:
+                bad("registry-save", "save #%d (%s) returned an error" % (i, c["names"][i]))
+            elif st["file"] != st["fmt"] or not st["load_ok"] or not st["load_eq"]:
+                bad("registry-save-load", "after save #%d of the sequence %s on one path the file holds %d bytes, the serialised registry "
+                    "has %d; load: %s" % (i, c["names"], len(st["file"]), len(st["fmt"]),
+                                          "returns a different registry" if st["load_ok"] else "fails: %s" % st.get("load_err")))
     elif op == "header_from_record":
         b = c["bytes"]
         want = o["oracle"] if len(b) >= 3 and isinstance(o["oracle"], int) else None
@@ -792,6 +841,13 @@ def model_term(c, o):
                 fk = 1
         res = 2 if o["r"] == "err" else (1 if o["nodes"] > 0 or (fk == 2 and text != "" and o["parse_ok"]) else 0)
         return "agree_registry %s %s %s %s" % (cN(fk), cstr(text) if len(text) < 3000 else cstr(text[:3000]), cbool(bool(o["parse_ok"])), cN(res))
+    if op == "registry_seq":
+        if "panic" in o:
+            return "false"
+        pre = c.get("pre")
+        cur = "Absent" if pre is None else "(Text %s)" % cstr(bytes(pre))
+        steps = ["(%s, %s)" % (cstr(bytes(st["fmt"])), cstr(bytes(st["file"]))) for st in o["steps"] if st.get("parsed")]
+        return "agree_saves %s %s" % (cur, clist(steps))
     if op == "header_from_record":
         orc = o.get("oracle")
         return "agree_header %s %s %s %s" % (cbytes(bytes(c["bytes"])), copt(orc if isinstance(orc, int) else None, cN),
@@ -818,6 +874,10 @@ def show(c, o):
 
 
 def nontrivial(c, o):
+    if c["op"] == "registry_seq":
+        lens = [len(st.get("fmt", [])) for st in o.get("steps", [])]
+        shape = tuple("g" if b > a else ("s1" if a - b == 1 else ("s" if b < a else "e")) for a, b in zip(lens, lens[1:]))
+        return ("registry_seq", c["pre"] is None, shape, "panic" in o)
     n = len(c.get("bytes", c.get("content") or c.get("text") or []))
     lc = n if n < 8 else (8 + n // 16 if n < 200 else 30)
     return (c["op"], c.get("profile", ""), "panic" if "panic" in o else str(o.get("r", o.get("code", o.get("back")))), lc, c.get("fam", ""),
